@@ -49,6 +49,7 @@ structure Client where
   inMonwait : Bool := false
   pendingSay : String := ""    -- line the harness prints when the current call returns
   cfgN : List Nat := [0, 0]    -- frame counts of the configure call in progress
+  misused : Bool := false      -- ghost: the client broke a usage rule of the API (mapped twice without unmapping)
 deriving Repr, Inhabited
 
 structure RT where
@@ -185,8 +186,11 @@ def clMon (s : Nat) : List (Act RT) :=
     { name := "cl.monwait.empty", guard := fun rt => atPc rt (.afterMap s) && rt.client.inMonwait && decide (rt.client.monLen.getD s 0 = 0),
       upd := fun rt => setPc rt (.sleeping 1), out := fun _ => [s!"API unmap {s} 0 -> ok"] },
     -- ---- monwait: while (state == Running) { map; unmap all; sleep } ----
-    { name := "cl.monwait.go", guard := fun rt => isOp rt (.monwait s) && (getState rt).state = .running,
+    { name := "cl.monwait.go", guard := fun rt => isOp rt (.monwait s) && (getState rt).state = .running && !monMapped rt s,
       upd := fun rt => { (getState rt) with client := { rt.client with pc := .mapLock s, inMonwait := true } } },
+    -- the same while the client still holds a mapped region: a usage error (`channel_read_map` through a mapped reader)
+    { name := "cl.monwait.go.mapped", guard := fun rt => isOp rt (.monwait s) && (getState rt).state = .running && monMapped rt s,
+      upd := fun rt => { (getState rt) with client := { rt.client with pc := .mapLock s, inMonwait := true, misused := true } } },
     { name := "cl.monwait.end", guard := fun rt => isOp rt (.monwait s) && (getState rt).state ≠ .running,
       upd := fun rt => { (popOp (getState rt)) with client := { (popOp (getState rt)).client with inMonwait := false } },
       out := fun rt => [s!"API monwait {s} -> {(getState rt).state.name}"] },
@@ -222,7 +226,7 @@ def clStart (s : Nat) : List (Act RT) :=
     { name := "cl.start.end", guard := fun rt => atPc rt (.startAt s) && (nextValid rt s).isNone,
       upd := fun rt => setPc { rt with state := .running } .next, out := fun _ => ["API start -> ok"] },
     { name := "cl.start.sto", guard := fun rt => atPc rt (.stoStart s),
-      upd := fun rt => setPc (modS rt s fun st => { st with sto := { st.sto with state := .running, run := st.sto.run + 1, nappend := 0, failed := false, log := [] } })
+      upd := fun rt => setPc (modS rt s fun st => { st with sto := { st.sto with state := .running, run := st.sto.run + 1, nappend := 0, failed := false, log := [], base := st.sinkCh.total, clean := decide (st.sinkCh.idx.getD 0 0 = st.sinkCh.total) } })
                              (.accLock s true 0),
       out := fun rt => [s!"DRV {stoDev s} start run={(getS rt s).sto.run + 1} -> running"] },
     { name := "cl.start.snk", guard := fun rt => atPc rt (.createSnk s),
